@@ -38,7 +38,8 @@ GThoroughConfigs ==
   {[alpha |-> {"a", "c", "g", "t"}, ns |-> <<6>>,    cs |-> {<<1>>, <<3>>}, ks |-> {2}],
    [alpha |-> {"a", "c", "g", "t"}, ns |-> <<7>>,    cs |-> {<<3>>},        ks |-> {3, 4}],
    [alpha |-> {"a", "c", "g"},      ns |-> <<4, 4>>, cs |-> {<<1, 2>>, <<1, 1>>}, ks |-> {2, 3}],
-   [alpha |-> {"a", "c", "g"},      ns |-> <<5, 4>>, cs |-> {<<1, 2>>},     ks |-> {3, 4}],
+   [alpha |-> {"a", "c", "g"},      ns |-> <<5, 4>>, cs |-> {<<1, 2>>},     ks |-> {4}],
+   [alpha |-> {"a", "c", "g"},      ns |-> <<5, 5>>, cs |-> {<<1, 2>>},     ks |-> {3}],
    [alpha |-> {"a", "c", "g", "n"}, ns |-> <<5>>,    cs |-> {<<2>>},        ks |-> {2, 3}],
    [alpha |-> {"a", "g", "r", "b"}, ns |-> <<3, 3>>, cs |-> {<<2, 1>>},     ks |-> {2, 3}],
    [alpha |-> {"a", "c"},           ns |-> <<5, 4, 3>>, cs |-> {<<1, 2, 4>>}, ks |-> {2, 3}]}
